@@ -516,6 +516,9 @@ func (s *sim) capture(from, to string, e *v2.Envelope) {
 	}
 }
 
+// simTemplateDir, if set, holds <node>.db files that every new simulation starts from.
+var simTemplateDir string
+
 func newSim(t *testing.T, in input, u *universe, res *result) *sim {
 	return newSimP(t, in, u, res, nil)
 }
@@ -523,6 +526,12 @@ func newSim(t *testing.T, in input, u *universe, res *result) *sim {
 func newSimP(t *testing.T, in input, u *universe, res *result, parties map[string]*party) *sim {
 	s := &sim{parties: parties, private: map[hash.SHA256Hash]*privTx{}, t: t, dir: t.TempDir(), u: u, nodes: map[string]*node{}, res: res, seen: map[string]map[hash.SHA256Hash]bool{}, cidAbs: map[string]int{}, cidReal: map[int]string{}}
 	for _, name := range in.Nodes {
+		if simTemplateDir != "" {
+			// start from a prepared database file (same content for every script of the run)
+			if raw, err := os.ReadFile(filepath.Join(simTemplateDir, name+".db")); err == nil {
+				_ = os.WriteFile(filepath.Join(s.dir, name+".db"), raw, 0o600)
+			}
+		}
 		db, err := bbolt.CreateBBoltStore(filepath.Join(s.dir, name+".db"), stoabs.WithNoSync())
 		if err != nil {
 			t.Fatal(err)
